@@ -43,8 +43,25 @@ func (c Channel) TokenReader() xml.TokenReader {
 		))
 	}
 	if len(c.Extensions) > 0 {
+		ext := xml.NewDecoder(bytes.NewReader(c.Extensions))
 		payloads = append(payloads, xmlstream.Wrap(
-			xml.NewDecoder(bytes.NewReader(c.Extensions)),
+			// The decoder reports namespace declarations both in the element names
+			// and as attributes; the encoder re-creates them from the names.
+			xmlstream.ReaderFunc(func() (xml.Token, error) {
+				tok, err := ext.Token()
+				if start, ok := tok.(xml.StartElement); ok {
+					attrs := make([]xml.Attr, 0, len(start.Attr))
+					for _, a := range start.Attr {
+						if a.Name.Space == "xmlns" || (a.Name.Space == "" && a.Name.Local == "xmlns") {
+							continue
+						}
+						attrs = append(attrs, a)
+					}
+					start.Attr = attrs
+					tok = start
+				}
+				return tok, err
+			}),
 			xml.StartElement{
 				Name: xml.Name{Local: "extensions"},
 			},
